@@ -519,19 +519,33 @@ func runConcurrency(rc *RunCtx) *Violation {
 	var execInner func(op *concOp, reference bool) string
 	// every execution runs under a generous logical step cap so that a pathological parse cannot
 	// stall the batch; outside a task the call gets an inline pseudo-task of its own
+	// the cap can also run out while the harness renders a result through small instrumented
+	// helpers after the call proper: that is a cut-off like any other
+	guarded := func(op *concOp, reference bool) (out string) {
+		defer func() {
+			if p := recover(); p != nil {
+				ce, ok := p.(simrt.CapExceeded)
+				if !ok {
+					panic(p)
+				}
+				out = callResult{Panic: fmt.Sprintf("step cap exceeded after %d steps", ce.Steps)}.desc()
+			}
+		}()
+		return execInner(op, reference)
+	}
 	exec := func(op *concOp, reference bool) string {
 		const opCap = 6000000
 		if simrt.TaskID() >= 0 {
 			base := simrt.Depth()
 			simrt.OpBegin(opCap)
-			out := execInner(op, reference)
+			out := guarded(op, reference)
 			simrt.OpEnd(base)
 			return out
 		}
 		var out string
 		simrt.RunInline(func() {
 			simrt.OpBegin(opCap)
-			out = execInner(op, reference)
+			out = guarded(op, reference)
 			simrt.OpEnd(0)
 		})
 		return out
